@@ -193,7 +193,7 @@ class CountingTable(Table):
         self.num_cols += 1
 
 
-def h11d_a1(letters, digits, d1, d2, R, C):
+def h11d_a1(letters, digits, d1, d2, R, C, lower=False):
     """every A1 spelling (1-3 letters, up to 8 digits, optional '$'s) names the position its letters and digits say;
     positions at or after the limits (and row 0) are rejected, the others grow the table by exactly what is needed"""
     from numbers_parser.xrefs import xl_cell_to_rowcol
@@ -202,6 +202,20 @@ def h11d_a1(letters, digits, d1, d2, R, C):
     want_c = -1
     for ch in letters:
         want_c = (want_c + 1) * 26 + (ord(ch) - 65)
+    if lower:
+        # a lower-case spelling is either refused (IndexError, nothing changes) or names the same position
+        s = s.lower()
+        t = object.__new__(CountingTable)
+        t.num_rows = R
+        t.num_cols = C
+        try:
+            got = t._validate_cell_coords(s, "v")
+        except IndexError:
+            assert t.num_rows == R and t.num_cols == C
+            cover("lower-case refused")
+            return
+        assert got == (want_r, want_c, "v")
+        return
     r, c = xl_cell_to_rowcol(s)
     assert r == want_r
     assert c == want_c
@@ -247,13 +261,13 @@ HARNESSES = [
 def _h11d(nl, nd):
     from pysym.api import StrDom
     return Harness(f"H11d-l{nl}d{nd}", h11d_a1,
-                   dict(letters=StrDom(nl, [(65, 90)]), digits=StrDom(nd, [(48, 57)]), d1=BoolDom(), d2=BoolDom(),
+                   dict(letters=StrDom(nl, [(65, 90)]), digits=StrDom(nd, [(48, 57)]), d1=BoolDom(), d2=BoolDom(), lower=Cases([False, True]),
                         R=Cases([2] if nd == 1 else [MAX_ROW_COUNT]), C=Cases([MAX_COL_COUNT])),
                    bounds=f"A1 strings [$]L{{{nl}}}[$]D{{{nd}}}: every upper-case string of {nl} letters, every string of {nd} "
-                          "digits (leading zeros included), both '$' flags; 2 rows for the one-digit forms (rows grow), otherwise "
+                          "digits (leading zeros included), both '$' flags, upper case and all-lower-case (refused or same position); 2 rows for the one-digit forms (rows grow), otherwise "
                           "a table already at the documented maximum size (growth loops are H11b's subject)",
                    stubs=["Table.add_row / add_column replaced by counters (growth up to 10^6 rows is counted, not performed)"],
-                   outside=["lower-case spellings", "more than 8 digits"])
+                   outside=["mixed-case spellings", "more than 8 digits"])
 
 
 _BASE = [h.name for h in HARNESSES]
